@@ -608,16 +608,49 @@ func historyCase(c *ev.Case, base string) {
 		c.Inconclusive("node: %v", err)
 		return
 	}
-	defer nd.Destroy()
-	for _, b := range tr.All[1:] {
+	defer func() { nd.Destroy() }()
+	// in half of the histories the node is stopped and started again once or twice while the blocks
+	// arrive (and, in some, once more after the last block): the validator sets and the schedule it
+	// answers with afterwards are those of the uninterrupted reference
+	restartAt := map[int]bool{}
+	nRestarts := 0
+	if c.Index%2 == 1 {
+		for i, n := 0, 1+rng.Intn(2); i < n; i++ {
+			restartAt[rng.Range(2, len(tr.All)-1)] = true
+		}
+		if rng.Chance(1, 2) {
+			restartAt[len(tr.All)-1] = true
+		}
+	}
+	restart := func() bool {
+		nd2, rerr := net.Reopen(nd, g)
+		if rerr != nil {
+			c.Violation("restart-failed", "the node does not start from its own store after a clean stop", map[string]interface{}{"error": rerr.Error(), "shape": tr.Shape()})
+			return false
+		}
+		nd = nd2
+		nRestarts++
+		c.Count("restarts", 1)
+		return true
+	}
+	for i, b := range tr.All[1:] {
+		if restartAt[i] && !restart() {
+			return
+		}
 		if _, err := nd.Chain.ProcessBlock(chainkit.CloneBlock(b.B)); err != nil {
 			c.Violation("valid-block-rejected:"+errClass(err), "a block proposed by the validator the reference schedules (valid on its branch) is rejected",
-				map[string]interface{}{"height": b.Height, "error": err.Error(), "shape": tr.Shape(), "timestamp": b.B.Timestamp,
+				map[string]interface{}{"height": b.Height, "error": err.Error(), "shape": tr.Shape(), "timestamp": b.B.Timestamp, "node_restarts_before": nRestarts,
 					"reference_validators": net.Validators(b.Parent.CP(p.Epoch))})
 			return
 		}
 	}
 	c.Count("blocks_accepted", int64(len(tr.All)-1))
+	if restartAt[len(tr.All)-1] && !restart() {
+		return
+	}
+	if len(restartAt) > 0 {
+		c.Count("histories_with_restarts", 1)
+	}
 	var fed []string
 	for i := 0; i < p.Fed; i++ {
 		fed = append(fed, net.PubHex[i])
@@ -693,7 +726,7 @@ func historyCase(c *ev.Case, base string) {
 		}
 		ctx := func(extra map[string]interface{}) map[string]interface{} {
 			m := map[string]interface{}{"block_height": b.Height, "block": chainkit.HashShort(b.Hash), "checkpoint_height": cp.Height, "tally": r.tally,
-				"reference_effective": fmtVals(r.eff), "shape": tr.Shape(), "federation": p.Fed}
+				"reference_effective": fmtVals(r.eff), "shape": tr.Shape(), "federation": p.Fed, "node_restarts": nRestarts}
 			for k, v := range extra {
 				m[k] = v
 			}
@@ -765,7 +798,7 @@ func historyCase(c *ev.Case, base string) {
 	if forks > 0 {
 		c.Count("histories_with_forks", 1)
 	}
-	c.Distinct("%s|fed%d|wide%v|gv%d|cand%d", tr.Shape(), p.Fed, wide, len(gv), maxCand)
+	c.Distinct("%s|fed%d|wide%v|gv%d|cand%d|restarts%d", tr.Shape(), p.Fed, wide, len(gv), maxCand, len(restartAt))
 	if c.WantSample() {
 		c.Sample(map[string]interface{}{"tree_shape": tr.Shape(), "blocks": len(tr.All) - 1, "forks": forks, "genesis_votes": len(gv), "max_candidates": maxCand, "federation": p.Fed})
 	}
@@ -795,6 +828,8 @@ func TestC15(t *testing.T) {
 	r.Floor("chain_slots_checked", 20000)
 	r.Floor("all_validators_checked", 800)
 	r.Floor("histories_with_forks", 30)
+	r.Floor("histories_with_restarts", 15)
+	r.Floor("restarts", 20)
 	r.Floor("checkpoints_after_veto_exceeding_tally", 5)
 	r.Floor("checkpoint_candidates_11", 1)
 	r.Floor("checkpoint_candidates_12-16", 5)
